@@ -204,21 +204,36 @@ SEND_SYNC_PATTERNS = [
 ]
 
 
+def norm_type(t):
+    t = re.sub(r"\(dyn ([\w:]+) \+ 'static\)", r"dyn \1", t)
+    return re.sub(r"\b(?:[a-z_]\w*::)+", "", t)
+
+
 def classify_build_failure(log):
-    """returns (is_send_sync_violation, root_causes, named_types, first_lines)"""
+    """returns (is_send_sync_violation, root_causes, culprits, named_types, rows, first_lines).
+    root cause = the non-Send/Sync type the compiler names; culprit = the innermost sea-query type
+    that contains it (first sea_query type of each `required because it appears within` chain)."""
     has_e0277 = "E0277" in log
     hit = any(p in log for p in SEND_SYNC_PATTERNS) or bool(re.search(r"`(?:std::rc::)?Rc<[^`]*>`[^\n]*`(?:Send|Sync)`", log))
-    roots = sorted(set(re.findall(r"error\[E0277\]: `([^`]+)` cannot be (?:sent|shared) between threads safely", log)))
+    roots, culprits = set(), set()
+    for block in re.split(r"(?m)^(?=error(?:\[E\d+\])?:)", log):
+        m = re.match(r"error\[E0277\]: `([^`]+)` cannot be (?:sent|shared) between threads safely", block)
+        if not m:
+            continue
+        roots.add(norm_type(m.group(1)))
+        c = re.search(r"appears within the type `(sea_query::[\w:]+)", block) or re.search(r"help: within `(sea_query::[\w:]+)", block)
+        if c:
+            culprits.add(norm_type(c.group(1)))
     named = set(re.findall(r"appears within the type `([^`]+)`", log))
     named |= set(re.findall(r"required for `([^`]+)` to implement `(?:Send|Sync)`", log))
     named |= set(re.findall(r"within `([^`]+)`, the trait `(?:Send|Sync)` is not implemented", log))
+    public_named = sorted({norm_type(t) for t in named if re.match(r"^sea_query::[\w:]+$", t)})
     # the table rows / gate lines the diagnostics point at
     rows = set(re.findall(r"^\s*\d+\s*\|\s*(?:row!\(rig, \"([^\"]+)\"|gate::<([^>]+(?:<[^>]*>)?)>\(\);)", log, re.M))
     row_names = sorted({a or b for a, b in rows if a or b})
-    keep = [t for t in sorted(named) if "sea_query" in t or re.match(r"^[A-Z]\w+$", t)]
     start = log.find("error")
     lines = log[start:].splitlines()[:80] if start >= 0 else log.splitlines()[-80:]
-    return (has_e0277 and hit), roots, keep, row_names, lines
+    return (has_e0277 and hit), sorted(roots), sorted(culprits), public_named, row_names, lines
 
 
 def stage_build(st, crate, prefix):
@@ -227,14 +242,14 @@ def stage_build(st, crate, prefix):
     st.counters["native_build_s"] = round(dt, 1)
     if rc == 0:
         return os.path.join(tdir, "verif", "c20")
-    viol, roots, named, rows, lines = classify_build_failure(log)
+    viol, roots, culprits, named, rows, lines = classify_build_failure(log)
     if viol:
-        short = [re.sub(r"^sea_query::(?:\w+::)*", "", t) for t in named]
-        sig = "E0277 Send/Sync: " + ",".join(roots[:4]) + " in " + ",".join(sorted(set(short))[:12])
+        sig = "E0277 not Send/Sync: " + ",".join(roots[:6]) + " inside " + ",".join(culprits[:8])
         st.violate("compile-gate", rel_repo(sig), {
             "stage": "build",
             "root_cause_types": roots,
-            "types_named_by_compiler": named,
+            "innermost_sea_query_types": culprits,
+            "public_types_that_lost_send_sync": named,
             "table_rows_or_gates_named": rows[:60],
             "diagnostic_first_lines": [rel_repo(l) for l in lines],
             "error_count": len(re.findall(r"^error\[E0277\]", log, re.M)),
@@ -336,7 +351,7 @@ def stage_miri(st, crate, prefix, cfg, groups_seeds):
     rc, out, dt = run(["cargo", "+nightly", "miri", "run", "--offline", "--", "--list"], crate, env, timeout=3600)
     st.counters["miri_build_s"] = round(dt, 1)
     if rc != 0 or "TYPE SelectStatement" not in out:
-        viol, roots, named, rows, lines = classify_build_failure(out)
+        viol, roots, culprits, named, rows, lines = classify_build_failure(out)
         if viol:
             st.violate("compile-gate", rel_repo("E0277 Send/Sync (miri build): " + ",".join(roots[:4])), {"stage": "miri-build", "diagnostic_first_lines": [rel_repo(l) for l in lines]})
         else:
@@ -428,7 +443,7 @@ def stage_tsan(st, crate, prefix, cfg):
     st.counters["tsan_build_s"] = round(dt, 1)
     binary = os.path.join(tdir, "x86_64-unknown-linux-gnu", "verif", "c20")
     if rc != 0 or not os.path.exists(binary):
-        viol, roots, named, rows, lines = classify_build_failure(out)
+        viol, roots, culprits, named, rows, lines = classify_build_failure(out)
         if viol:
             st.violate("compile-gate", rel_repo("E0277 Send/Sync (tsan build): " + ",".join(roots[:4])), {"stage": "tsan-build", "diagnostic_first_lines": [rel_repo(l) for l in lines]})
         else:
@@ -611,6 +626,7 @@ def main():
             },
             "samples": sample_list,
             "inconclusive": st.inconclusive,
+            "notes": st.notes,
             "exhaustive_parts": [],
         },
         "violations_new": new_v[:20],
